@@ -81,13 +81,46 @@ def _helper_kind(h):
         return 'expr'
     rets = [n for n in _own_nodes(node) if isinstance(n, ast.Return)]
     if any(r.value is not None for r in rets):
-        return None
+        return 'guard' if _is_guard_helper(body) else None
     if rets and not (len(rets) == 1 and body and body[-1] is rets[0]):
         return None
     if any(isinstance(n, (ast.Yield, ast.YieldFrom, ast.Global, ast.Nonlocal))
            for n in _own_nodes(node)):
         return None
     return 'proc'
+
+
+def _failing_expr(e):
+    """a falsy constant, or a call of an error reporter on self (the
+    reporters of this code base all answer False)"""
+    if e is None:
+        return True
+    if isinstance(e, ast.Constant):
+        return not e.value
+    return isinstance(e, ast.Call) and isinstance(e.func, ast.Attribute) \
+        and isinstance(e.func.value, ast.Name) and e.func.value.id == 'self' \
+        and 'error' in e.func.attr
+
+
+def _is_guard_helper(body):
+    """straight-line statements; `if c: return <failing>` guards; a final
+    `return True`: the helper of `if not self._h(..): return False`"""
+    if not body or not (isinstance(body[-1], ast.Return)
+                        and isinstance(body[-1].value, ast.Constant)
+                        and body[-1].value.value is True):
+        return False
+    for st in body[:-1]:
+        inner = [n for n in ast.walk(st) if isinstance(n, ast.Return)]
+        if not inner:
+            if any(isinstance(n, (ast.FunctionDef, ast.Lambda, ast.Yield,
+                                  ast.YieldFrom)) for n in ast.walk(st)):
+                return False
+            continue
+        if not (isinstance(st, ast.If) and not st.orelse and len(st.body) == 1
+                and isinstance(st.body[0], ast.Return) and len(inner) == 1
+                and _failing_expr(st.body[0].value)):
+            return False
+    return True
 
 
 class _Inliner(ast.NodeTransformer):
@@ -166,6 +199,46 @@ class _Inliner(ast.NodeTransformer):
                 self.changed = True
                 self.expanded.add(h)
                 out = pre + sub
+                for s in out:
+                    ast.copy_location(s, node)
+                    ast.fix_missing_locations(s)
+                return out
+        return self.generic_visit(node)
+
+    def visit_If(self, node):
+        # if not self._h(args): return <failing>   with h a guard helper
+        t = node.test
+        if isinstance(t, ast.UnaryOp) and isinstance(t.op, ast.Not) \
+                and isinstance(t.operand, ast.Call) and not node.orelse \
+                and len(node.body) == 1 and isinstance(node.body[0], ast.Return) \
+                and _failing_expr(node.body[0].value):
+            got = self._helper(t.operand)
+            if got and got[1] == 'guard':
+                h, _k, params = got
+                mapping, pre = self._bind(h, params, t.operand.args)
+                body = [copy.deepcopy(s) for s in h.node.body
+                        if not (isinstance(s, ast.Expr)
+                                and isinstance(s.value, ast.Constant))][:-1]
+                body = [_Subst(mapping).visit(s) for s in body] or [ast.Pass()]
+                orig = ast.Module(body=[s for s in h.node.body if not (
+                    isinstance(s, ast.Expr) and isinstance(s.value, ast.Constant))][:-1],
+                    type_ignores=[])
+                wrapper = ast.Module(body=body, type_ignores=[])
+                if len(orig.body) == len(wrapper.body):
+                    _tag_calls(orig, wrapper)
+                inl = _Inliner(self.A, h, None, self.depth + 1,
+                               self.seen | {h}, self.keep)
+                out = []
+                if self.depth + 1 < MAX_DEPTH:
+                    for s in wrapper.body:
+                        r = inl.visit(s)
+                        out += r if isinstance(r, list) else [r]
+                    self.expanded |= inl.expanded
+                else:
+                    out = wrapper.body
+                self.changed = True
+                self.expanded.add(h)
+                out = pre + out
                 for s in out:
                     ast.copy_location(s, node)
                     ast.fix_missing_locations(s)
